@@ -169,9 +169,25 @@ def worker():
         comp = jx.Compartment()
         cell = jx.Cell([jx.Branch(comp, 2), jx.Branch(comp, 1), jx.Branch(comp, 2)], parents=[-1, 0, 0])
         cell.insert(HH())
-        cell.branch(0).comp(0).stimulate(jx.step_current(0.05, 0.2, 0.3, 0.025, 0.4), verbose=False)
-        cell.record("v", verbose=False)
-        getattr(cell, it["view"])("all").make_trainable(it["key"], verbose=False) if it["view"] != "module" else cell.make_trainable(it["key"], verbose=False)
+        if it.get("net"):
+            # synaptic parameters: three cells, two synapse types, fan-in; the parameter is shared by the type or one per synapse
+            from jaxley.connect import connect
+            from jaxley.synapses import IonotropicSynapse, TestSynapse
+            cell = jx.Network([cell, cell, cell])
+            connect(cell.cell(0).branch(0).comp(0), cell.cell(1).branch(2).comp(1), IonotropicSynapse())
+            connect(cell.cell(2).branch(1).comp(0), cell.cell(1).branch(0).comp(0), TestSynapse())
+            connect(cell.cell(0).branch(2).comp(0), cell.cell(1).branch(2).comp(1), IonotropicSynapse())
+            cell.cell(0).branch(0).comp(0).stimulate(jx.step_current(0.05, 0.3, 2.0, 0.025, 0.6), verbose=False)
+            cell.cell(2).branch(0).comp(0).stimulate(jx.step_current(0.1, 0.3, 1.5, 0.025, 0.6), verbose=False)
+            cell.IonotropicSynapse.set("IonotropicSynapse_gS", 5e-3)
+            cell.TestSynapse.set("TestSynapse_gC", 4e-3)
+            cell.cell(1).record("v", verbose=False)
+            ty = cell.IonotropicSynapse if it["key"].startswith("Iono") else cell.TestSynapse
+            (ty.edge("all") if it["view"] == "edge" else ty).make_trainable(it["key"], verbose=False)
+        else:
+            cell.branch(0).comp(0).stimulate(jx.step_current(0.05, 0.2, 0.3, 0.025, 0.4), verbose=False)
+            cell.record("v", verbose=False)
+            getattr(cell, it["view"])("all").make_trainable(it["key"], verbose=False) if it["view"] != "module" else cell.make_trainable(it["key"], verbose=False)
         params = cell.get_parameters()
         kw = dict(voltage_solver=it["vs"], solver=it["solver"])
         if it["layout"]:
@@ -290,6 +306,14 @@ def main():
                        "layout": [4, 5] if len(hh) % 3 == 0 else None})
     if quick:
         hh = hh[C.seed() % 2::2]
+    # synaptic parameters (shared by the type / one per synapse) on a small network with fan-in and two synapse types
+    syn = []
+    for key, view in (("IonotropicSynapse_gS", "type"), ("IonotropicSynapse_gS", "edge"), ("TestSynapse_gC", "type"),
+                      ("IonotropicSynapse_k_minus", "edge"), ("IonotropicSynapse_e_syn", "type")):
+        for vs in ("jaxley.stone", "jax.sparse"):
+            syn.append({"key": key, "view": view, "vs": vs, "net": True, "solver": "bwd_euler" if len(syn) % 2 == 0 else "crank_nicolson",
+                        "layout": [5, 5] if len(syn) % 3 == 0 else None})
+    hh += syn[C.seed() % 2::2] if quick else syn
     jobs = []
     nchunks = C.NCPU
     sc, nc_, hc = C.chunks(struct, nchunks), C.chunks(numeric, nchunks), C.chunks(hh, nchunks)
@@ -320,7 +344,7 @@ def main():
         chk.sample(n_)
     chk.sample({"structure": struct[0]})
     chk.assume("TLC decides the sharing/transposition structure; derivatives through exp rest on JAX's forward mode as the second "
-               "opinion", "complex-step differentiation of the numpy oracle (cross-checked against TLC mod p in C01)",
+               "opinion (HH cell and synaptic parameters of a three-cell network)", "complex-step differentiation of the numpy oracle (cross-checked against TLC mod p in C01)",
                "finite differences never decide unless their own error estimate is below 1e-6 of the gradient scale")
     return chk.finish()
 
